@@ -19,7 +19,7 @@ theorem commit_inv (a : App) (c : Cache) (height : Nat) (h : Inv a) :
     ∃ a' B, a.commit c height = .ok a' ∧ Inv a' ∧ Done a' ∧
       a'.db = applyBatch a.db B ∧ a'.log = a.log ++ [B] ∧ a'.cfg = a.cfg ∧
       a'.lastVer = a.nextVersion ∧ a'.msInitial = a.msInitial := by
-  obtain ⟨dM, dX, hdM, hdX, heq⟩ := App.commit_collected a c height h
+  obtain ⟨dM, dX, _, _, hdM, hdX, heq⟩ := App.commit_collected a c height h
   simp only at heq
   obtain ⟨hMn, hMf, hMv, hMi, hMh, hMst⟩ := Tree.flush_keeps a.main c.m h.main.staged
   have hMw : (a.main.flush c.m).workingVersion = a.nextVersion := h.main.workingVersion c.m
